@@ -33,11 +33,11 @@ def explore(ctx):
             dist[name] = dist.get(name, 0) + 1
         cases.append({"lines": lines, "calls": calls})
     # long lists: behaviour must not depend on the length (lengths around powers of two, 100, 200)
-    for b in range(0, 120 if ctx.quick else 6000, 6):
+    for b in range(0, 120 if ctx.quick else 1500, 6):
         lines = ["FUEL 6000", "NEW 0 std", "EVAL 0 " + h("(import (verif tick))")]
         calls = []
         for k in range(6):
-            text, want, name = gen.long_list_call(ctx.rng, None if ctx.quick else gen.LONG_LENGTHS + [511, 512, 513])
+            text, want, name = gen.long_list_call(ctx.rng, None if ctx.quick else gen.LONG_LENGTHS + [300, 384, 385])
             lines.append("EVAL 0 " + h(text))
             calls.append((text, want, name))
             dist["long " + name] = dist.get("long " + name, 0) + 1
@@ -73,7 +73,7 @@ def explore(ctx):
                 "length 12 with nesting, indices in and just outside range, ticking procedure arguments (once per element); the "
                 "result is compared model vs implementation and against an independent model on python lists (value, number of "
                 "calls of the procedure argument, error when the list is too short); plus the list procedures on long lists of distinct integers "
-                "(lengths 31-257 around powers of two, 100 and 200; to 513 in the thorough tier) with order-sensitive procedure arguments. non-trivial = distinct call with a value",
+                "(lengths 31-257 around powers of two, 100 and 200; to 385 in the thorough tier) with order-sensitive procedure arguments. non-trivial = distinct call with a value",
         "exhaustive": False,
         "input_distribution": dist,
         "samples": [{"call": c["calls"][0][0], "expected": c["calls"][0][1], "model": r[0][3], "impl": r[1][3]} for c, r in
